@@ -184,7 +184,17 @@ fn promptness(sc: &Scenario, out: &RunOutput) -> OracleResult {
         match ev {
             Ev::Emit(e) => {
                 if undelivered(&written, &read) && *t - last_activity > bound {
-                    res.violate(P, "wire-silent-too-long", *t, format!("no datagram between {} and {} ({} ms) while accepted bytes were undelivered; bound 2L+40ms = {} ms (L = {} ms)", crate::hist::fmt_t(last_activity), crate::hist::fmt_t(*t), (*t - last_activity) / MS, bound / MS, lat / MS));
+                    // F21 context: a sender sat on a segment it had cut for an older, wider window
+                    // (nothing in flight, segments queued, their bytes exceed the peer's window)
+                    let precut = snap.iter().flatten().any(|s| s.flight_size == 0 && s.segmented_packets > 0 && s.last_remote_window > 0 && s.segmented_bytes > s.last_remote_window as usize);
+                    res.violate(P, "wire-silent-too-long", *t, format!("no datagram between {} and {} ({} ms) while accepted bytes were undelivered; bound 2L+40ms = {} ms (L = {} ms); a sender held a pre-cut segment beyond the peer's window: {}", crate::hist::fmt_t(last_activity), crate::hist::fmt_t(*t), (*t - last_activity) / MS, bound / MS, lat / MS, precut));
+                    if precut {
+                        if let Some(v) = res.violations.last_mut() {
+                            if v.tag == "wire-silent-too-long" && v.t == *t {
+                                v.aux = Some(21);
+                            }
+                        }
+                    }
                 }
                 last_activity = *t;
                 if let (Some(n), Some(p)) = (node_of(e.src), &e.pkt) {
